@@ -120,6 +120,17 @@ def classify(entry, src, rc, out, secs, timed_out):
             if non_abort:
                 obl[safety] = "failed"
             reason = f"expected abort on every path: status={p['status']} covers={cov} other_failures={[f['desc'] for f in non_abort][:5]}"
+    elif expect == "released":
+        # the harness ends with a probe read of an allocation that must have been released: CBMC has to refute
+        # exactly that read ("deallocated dynamic object") inside the harness file and nothing else
+        probe = [f for f in p["failed"] if "deallocated dynamic object" in f["desc"]]
+        other = [f for f in p["failed"] if not (f["desc"].startswith("dereference failure") and "/verif/" in f["file"])]
+        if not (p["status"] == "failed" and probe and not other):
+            for l in labels:
+                obl[l] = "failed"
+            if other:
+                obl[safety] = "failed"
+            reason = f"expected the probe read to hit a released allocation: status={p['status']} probe_hits={len(probe)} other_failures={[f['desc'] for f in other][:5]}"
     else:
         raise ValueError(expect)
     return {"obligations": obl, "reason": reason, "parsed": p, "tail": out[-3000:] if reason else ""}
